@@ -60,6 +60,8 @@ def _literals(t, pol):
     (`if (!a)`, `if (a) {} else`, `if (x && y)` and nested ifs give the same entries)."""
     while isinstance(t, tuple) and len(t) == 2 and t[0] == '!':
         t, pol = t[1], not pol
+    if isinstance(t, tuple) and len(t) == 3 and t[0] == '<=':
+        t, pol = ('<', t[2], t[1]), not pol          # a <= b  is  not (b < a): one spelling per comparison
     if isinstance(t, tuple) and t and ((t[0] == '&&' and pol) or (t[0] == '||' and not pol)):
         out = []
         for x in t[1:]:
